@@ -111,7 +111,9 @@ class C08(runner.Prop):
             ctx.fail('inspect/len', f'{len(s)} vs {s.num_leaves}')
         if s.is_leaf() != (node.kind == 'leaf') or s.is_leaf(strict=False) != (s.num_nodes == 1):
             ctx.fail('inspect/is_leaf', f'{s}')
-        if optree.treespec_is_leaf(s) != s.is_leaf() or optree.treespec_is_strict_leaf(s) != s.is_leaf():
+        if optree.treespec_is_leaf(s) != s.is_leaf() or optree.treespec_is_strict_leaf(s) != s.is_leaf() \
+                or optree.treespec_is_leaf(s, strict=True) != (node.kind == 'leaf') \
+                or optree.treespec_is_leaf(s, strict=False) != (s.num_nodes == 1):
             ctx.fail('inspect/treespec_is_leaf', f'{s}')
         one = node.kind != 'leaf' and all(c.kind == 'leaf' for c in node.children)
         if s.is_one_level() != one or optree.treespec_is_one_level(s) != one:
